@@ -203,7 +203,9 @@ class DAGRunConcurrentManager(DAGRunManagerLike):
 
                 if self._is_switch(pred_node_id):
                     kwargs[kwarg_name] = self._node_storage.get_node_result(
-                        self._node_storage.get_switch_result(pred_node_id).node_id,
+                        # The verdict is read the same way as the results below: a re-iteration may have hidden it
+                        # after the node has been released
+                        self._node_storage.get_switch_result(pred_node_id, with_hidden=True).node_id,
                         with_hidden=True,
                     )
 
